@@ -297,12 +297,23 @@ def check(ctx):
         ctx.decide(ok, "R-MUSTPASS/restart", st.qual, st.where(), f"`{w}` on every path past the guard",
                    f"Diameter.start does not execute `{w}` on every path past its guard: a restarted node reuses a closed "
                    f"association / state machine", key=w)
-    from ..astutil import guards as _guards
-    g_ = _guards(st.node)
-    closed = lambda conds, tv: any(ast.unparse(t).endswith("== CLOSED") and v is tv for t, v in conds)
-    builds = [n for n in walk_no_nested(st.node) if isinstance(n, ast.Assign) and ast.unparse(n) == wants[0]]
-    refuses = [n for n in walk_no_nested(st.node) if isinstance(n, ast.Raise) and closed(g_.get(id(n), []), False)]
-    guard = bool(builds) and all(closed(g_.get(id(n), []), True) for n in builds) and bool(refuses)
+    # on terms: the association is (re)built only on paths where get_current_state() == CLOSED, every other path raises
+    from .. import sym as _s8
+    from ..astutil import strip_doc as _sd
+    CLOSED_ = repo.fold(st.mod, ast.Name(id="CLOSED", ctx=ast.Load()))
+    STATE_ = ("call", ("attr", ("name", "self"), "get_current_state"), (), ())
+    is_closed = lambda c: isinstance(c, tuple) and c[0] == "cmp" and c[1] == "Eq" and {c[2], c[3]} == {STATE_, CLOSED_}
+    guard, n_build, n_refuse = True, 0, 0
+    for p_ in _s8.Interp(fold=lambda e: repo.fold(st.mod, e)).run(_sd(st.node.body)):
+        closed_tv = [tv for c, tv in p_.conds if is_closed(c)]
+        builds_ = any(e[0] == "store" and e[1] == "self._association" for e in p_.effects)
+        if builds_:
+            n_build += 1
+            guard = guard and closed_tv == [True]
+        elif closed_tv == [False]:
+            n_refuse += 1
+            guard = guard and p_.term == "raise"
+    guard = guard and n_build > 0 and n_refuse > 0
     ctx.decide(bool(guard), "R-DOM/restart", st.qual, st.where(), "start is refused unless the state is Closed",
                "Diameter.start no longer refuses to start a running node", key="guard", nontrivial=False)
     asr = ctx.need(funcs.get("bromelia.setup.DiameterAssociation.start"), "DiameterAssociation.start")
